@@ -1,1 +1,7 @@
+import JinnsProofs.C02
+import JinnsProofs.C06
+import JinnsProofs.C07
 import JinnsProofs.C09
+import JinnsProofs.C09Holds
+import JinnsProofs.C14
+import JinnsProofs.SolveLemmas
